@@ -352,6 +352,7 @@ type ArbSpec struct {
 	Rounds     int         `json:"rounds"`         // candidacies per candidate (retry after a failure)
 	MaxLoss    int         `json:"maxloss"`        // at most this many lost requests / lost replies per history
 	Restarts   int         `json:"restarts,omitempty"` // at most this many kill-and-restart events of non-candidate members (state reloaded from the saved metadata)
+	AckedLog   int         `json:"acked,omitempty"`    // >0: a record at this log ordinal was acknowledged under the configured ack mode before the leader died: every winner must hold it
 }
 
 // ArbEvent decides the fate of one pending request, named "from>to:METHOD:n".
